@@ -3,8 +3,8 @@
    setRoot() produce), every indexed search answers exactly what the unindexed search answers from the same root:
    same elements, same order, for every combination of enabled indexes and from every sub-element.
    scope doc sub is the list of elements the unindexed search examines (C06: it returns the filter of that list). *)
-From AHP Require Import Model.Base Model.Str Model.Attr Model.Dom Model.Search Model.Index
-     Proofs.DomProofs Proofs.SearchProofs Proofs.IndexProofs.
+From AHP Require Import Model.Base Model.Str Model.Attr Model.Dom Model.Search Model.Index Model.Parser Model.IndexedParser
+     Proofs.DomProofs Proofs.SearchProofs Proofs.IndexProofs Proofs.IndexedParserProofs.
 
 Theorem C07_tag_name : forall doc o, WF None o doc -> NoDup (uids_of doc) -> forall c i0 sub sc n,
   scope doc sub = Some sc -> ix_tag c = true ->
@@ -59,6 +59,15 @@ Proof. exact namemap_all. Qed.
 (* reindex starts from empty maps: nothing stale survives, whatever the maps held before *)
 Theorem C07_reindex_forgets : forall c doc i i', map fst (others i) = map fst (others i') -> reindex c doc i = reindex c doc i'.
 Proof. exact reindex_forgets. Qed.
+(* parsing: the index built element by element while the start tags are handled (retry after a multiple-root failure included)
+   is the index reindex() builds from the finished tree; the parsed tree is the one the plain parser model builds *)
+Theorem C07_parse_time_index : forall c cls i ts1 ts2 s' i' root,
+  ifeed c cls i ts1 ts2 = POk (s', i') -> tree_of s' = Some root -> i' = reindex c root i /\ feed cls ts1 ts2 = POk s'.
+Proof. exact parse_index_is_reindex. Qed.
+(* ... and every parsed document meets the uniqueness hypothesis: its uids are its document-order ranks *)
+Theorem C07_parsed_uids_unique : forall cls ts1 ts2 s root, feed cls ts1 ts2 = POk s -> tree_of s = Some root ->
+  uids_of root = seq 0 (pnext s) /\ NoDup (uids_of root).
+Proof. exact parsed_uids_are_ranks. Qed.
 (* the hypotheses are invariants of the edit histories *)
 Theorem C07_edits_keep_hypotheses : forall edits doc o, WF None o doc -> NoDup (uids_of doc) ->
   WF None o (fold_left apply_edit edits doc) /\ NoDup (uids_of (fold_left apply_edit edits doc)).
